@@ -1,8 +1,178 @@
 import JokerVerif.Drive.Common
-/-! Driver handlers for C09 C18 (to be filled in). -/
+import JokerVerif.Model.PriorValidate
+import JokerVerif.Drive.PriorDensOps
+/-! Driver handlers for C18 (validation decision logic) and C09 (densities, see `PriorDensOps`). -/
 open Lean Drive
-namespace Drive
 
-def priorOps : List (String × H) := []
+namespace Drive
+open PriorV
+
+def canonNat? (s : String) : Option Nat :=
+  match s.toNat? with
+  | some n => if toString n == s then some n else none
+  | none => none
+
+def parseName (s : String) : PriorV.Name :=
+  if s == "P" then .P else if s == "e" then .e else if s == "omega" then .omega
+  else if s == "M0" then .M0 else if s == "s" then .s else if s == "K" then .K
+  else
+    let other := PriorV.Name.other s.hash.toNat
+    if s.startsWith "dv0_" then
+      match canonNat? ((s.drop 4).toString) with
+      | some j => .dv0 j
+      | none => other
+    else if s.startsWith "v" then
+      match canonNat? ((s.drop 1).toString) with
+      | some i => .v i
+      | none => other
+    else other
+
+def jErr (e : Err) : Json :=
+  Json.mkObj [("error", match e with
+    | .value => "value" | .type => "type" | .notimpl => "notimpl" | .units => "units" | .unspecified => "unspecified")]
+
+def jNames (l : List PriorV.Name) : Json := Json.arr (l.map fun n => Json.str n.toString).toArray
+
+def parseDim (j : Json) : Except String (Option Dim) :=
+  match j with
+  | .null => .ok none
+  | _ => do
+    let a ← (fromJson? j : Except String (Array Int))
+    if a.size != 4 then throw "dim needs 4 exponents"
+    return some ⟨a[0]!, a[1]!, a[2]!, a[3]!⟩
+
+def parseKind (s : String) : Except String Kind :=
+  match s with
+  | "normal" => .ok .normal | "fcm" => .ok .fcm | "otherRV" => .ok .otherRV | "unnamedOp" => .ok .unnamedOp
+  | "noOwner" => .ok .noOwner | "notTensor" => .ok .notTensor
+  | _ => .error s!"bad kind {s}"
+
+def parseParam (j : Json) : Except String Param := do
+  let n ← getStr j "name"
+  let u ← parseDim ((j.getObjVal? "unit").toOption.getD .null)
+  let k ← parseKind (← getStr j "kind")
+  return ⟨parseName n, u, k⟩
+
+def parseParams (j : Json) (k : String) : Except String (List Param) := do
+  let a ← getArr j k
+  a.toList.mapM parseParam
+
+def parseQArg (j : Json) : Except String QArg :=
+  match j with
+  | .null => .ok .missing
+  | .str "bare" => .ok .bare
+  | _ => do
+    match ← parseDim j with
+    | some d => return .qty d
+    | none => return .missing
+
+def parseSArg (j : Json) : Except String SArg :=
+  match j with
+  | .null => .ok .missing
+  | .str "bare" => .ok .bare
+  | .arr _ => do
+    match ← parseDim j with
+    | some d => return .qty d
+    | none => return .missing
+  | _ => do
+    let u ← parseDim ((j.getObjVal? "unit").toOption.getD .null)
+    let k ← parseKind (← getStr j "kind")
+    return .tensor u k
+
+def parseSigmaV (j : Json) : Except String SigmaV :=
+  match j with
+  | .null => .ok .missing
+  | .str "bare" => .ok .bare
+  | .str "array" => .ok .arrayQty
+  | _ => do
+    let form ← getStr j "form"
+    if form == "scalar" then
+      match ← parseDim (← j.getObjVal? "dim") with
+      | some d => return .scalarQty d
+      | none => throw "scalar sigma_v needs dim"
+    else if form == "list" then
+      let a ← getArr j "items"
+      return .list (← a.toList.mapM parseQArg)
+    else if form == "dict" then
+      let a ← getArr j "items"
+      let items ← a.toList.mapM fun it => do
+        let n ← getStr it "name"
+        let q ← parseQArg ((it.getObjVal? "q").toOption.getD .null)
+        return (parseName n, q)
+      return .dict items
+    else throw s!"bad sigma_v form {form}"
+
+def optIntNull (j : Json) (k : String) : Except String (Option Int) := optInt j k
+
+def parseParsStatus (s : String) : Except String ParsStatus :=
+  match s with
+  | "ok" => .ok .ok | "invalid" => .ok .invalid
+  | _ => .error s!"bad parsStatus {s}"
+
+def answer (r : Except Err (List PriorV.Name)) : Json :=
+  match r with
+  | .ok names => Json.mkObj [("ok", jNames names)]
+  | .error e => jErr e
+
+def priorValidateOp : H := fun j => do
+  let i : PriorInput := {
+    modelOk := ← getBool j "modelOk"
+    parsStatus := ← parseParsStatus (← getStr j "parsStatus")
+    polyTrend := ← optIntNull j "polyTrend"
+    offsetsIterable := ← getBool j "offsetsIterable"
+    pars := ← parseParams j "pars"
+    offsets := ← parseParams j "offsets" }
+  return answer (validate i)
+
+def priorDefaultOp : H := fun j => do
+  let q (k : String) : Except String QArg := parseQArg ((j.getObjVal? k).toOption.getD .null)
+  let d : DefaultInput := {
+    modelOk := ← getBool j "modelOk"
+    pMin := ← q "pMin"
+    pMax := ← q "pMax"
+    sigmaK0 := ← q "sigmaK0"
+    p0 := ← q "p0"
+    s := ← parseSArg ((j.getObjVal? "s").toOption.getD .null)
+    sigmaV := ← parseSigmaV ((j.getObjVal? "sigmaV").toOption.getD .null)
+    polyTrend := ← optIntNull j "polyTrend"
+    offsetsIterable := ← getBool j "offsetsIterable"
+    offsets := ← parseParams j "offsets"
+    userPars := ← parseParams j "userPars" }
+  return answer (defaultValidate d)
+
+def parseSource (s : String) : Except String Source :=
+  match s with
+  | "rv" => .ok (.rv false) | "cov" => .ok (.rv true) | "notRV" => .ok .notRV
+  | _ => .error s!"bad source {s}"
+
+def priorDataOp : H := fun j => do
+  let form ← getStr j "form"
+  let q ← getNat j "q"
+  let p ← getInt j "p"
+  let d : DataInput ←
+    if form == "single" then pure DataInput.single
+    else if form == "notIterable" then pure DataInput.notIterable
+    else do
+      let a ← getArr j "srcs"
+      let srcs ← a.toList.mapM fun x => do parseSource (← (fromJson? x : Except String String))
+      pure (DataInput.multi srcs)
+  let v := match validateData d q with
+    | .ok n => Json.mkObj [("ok", jNat n)]
+    | .error e => jErr e
+  let s := match samplerAccepts p q d with
+    | .ok () => Json.mkObj [("ok", jNat 1)]
+    | .error e => jErr e
+  return Json.mkObj [("validate", v), ("sampler", s)]
+
+def jokerInitOp : H := fun j => do
+  match jokerInit (← getBool j "poolOk") (← getBool j "rngOk") (← getBool j "priorOk") with
+  | .ok () => return Json.mkObj [("ok", jNat 1)]
+  | .error e => return jErr e
+
+def priorValidateOps : List (String × H) :=
+  [("prior.validate", priorValidateOp), ("prior.default", priorDefaultOp), ("prior.data", priorDataOp),
+   ("prior.jokerInit", jokerInitOp)]
+
+def priorOps : List (String × H) := priorValidateOps ++ priorDensOps
 
 end Drive
